@@ -232,8 +232,12 @@ extern int mpt_graph_set(MPT_STRUCT(graph) *gr, const char *name, MPT_INTERFACE(
 			gr->clip = def_graph.clip;
 			return 0;
 		}
-		if (len) {
+		if (len > 0) {
 			return 0;
+		}
+		/* number out of range, text form needs a non-number */
+		if (len != MPT_ERROR(BadType)) {
+			return len;
 		}
 		if ((len = src->_vptr->convert(src, 's', &v)) < 0) {
 			return len;
